@@ -216,9 +216,13 @@ def receiveChecks (r : NRef) (port : Nat) (src : String) (d : Bytes) (attack : B
       else if !devs.isEmpty && (modeFlags (r.cfgOf port "mode") (r.cfgOf port "dev" = "tap")).1 && (match tr with
           | some t =>
             (match (if r.cfgOf port "dev" = "tap" then VpnCloud.Spec.C19.frameRef t.frame else VpnCloud.Spec.C19.packetRef t.frame) with
-             | some (sa, _) => !(after.cache.any (fun (a, p, _) => a = sa && p = src))
+             | some (sa, _) => !(after.cache.any (fun (a, p, to) => a = sa && p = src && to = r.now + ((r.cfgOf port "st").toNat?.getD 0 : Nat)))
              | none => false)
-          | none => false) then some "C13/C10 the source address of a received frame was not learned for the peer it came from"
+          | none => false) then some "C13/C10 the source address of a received frame was not learned for the peer it came from until now + switch timeout"
+      -- C12 / C15: routes announced by a peer live until now + the node's own peer timeout
+      else if genuine && !attack && after.claims.any (fun (p, rg, to) => p = src &&
+          !(before.claims.any (fun (p', rg', to') => p' = p && rg' = rg && to' = to)) && to ≠ r.now + ((r.cfgOf port "pt").toNat?.getD 0 : Nat)) then
+        some "C12/C15 a route announced by a peer does not expire at now + the configured peer timeout"
       else if !genuine then
         -- C08 / C01 / C09: a forged datagram leaves nothing behind
         if !outs.isEmpty then some "C01 reply to a datagram that fails verification"
